@@ -12,6 +12,7 @@
      plen s              len(queue)
      pairs H s l         the sustained load: for every (obj, priority) of l one
                          round  popleft(); append_pri(obj, priority)
+     pairs_ap H s l      the same with rounds  append_pri(obj, priority); popleft()
      pre_maint H s1 o p  the state on which update_counters(True) decides while
                          append_pri(o, p) runs in s1 (entry added, n_inserted
                          incremented); do_maintenance is applied to this state
@@ -101,6 +102,35 @@ Theorem C19_prompt_any_heap : forall (H : heapimpl pv), heap_len H ->
                 (ins_at (epri e) <? n_ins sm - plen sm) = true.
 Proof. exact prompt. Qed.
 Print Assumptions C19_prompt_any_heap.
+
+(* The other order of a round (append_pri first, then popleft) needs only L >= 1:
+   after ANY history maintenance runs in one of the first max(10,L+1)+2 rounds,
+   and in every round after more than L rounds each entry queued since the start
+   passes the straggler test. *)
+Theorem C19_prompt_append_first : forall (f : Q) (draws : list Q) (history : list posop)
+                                         (load : list (Z * Q)),
+  let s := pos_exec (pos_empty f draws) history in
+  let L := plen s in
+  1 <= L ->
+  (Z.max 10 (L + 1) + 2 <= Z.of_nat (length load) ->
+   exists l1 x l2, load = l1 ++ x :: l2 /\
+     Z.of_nat (length l1) <= Z.max 10 (L + 1) + 1 /\
+     due (pre_maint HPV (pairs_ap HPV s l1) (fst x) (snd x)) = true)
+  /\
+  (forall l1 x, L < Z.of_nat (length l1) ->
+     let sm := pre_maint HPV (pairs_ap HPV s l1) (fst x) (snd x) in
+     plen sm = L + 1 /\
+     forall e, In e (arr (pq_ sm)) -> ins_at (epri e) <= n_ins s ->
+               (ins_at (epri e) <? n_ins sm - plen sm) = true).
+Proof.
+  intros f ds hist load s L HL.
+  assert (Hc : cinv s).
+  { unfold s. rewrite pos_exec_gexec. apply gexec_cinv. unfold cinv; simpl; lia. }
+  split.
+  - intros Hlen. apply (prompt_ap HPV heap_len_HPV s load Hc HL Hlen).
+  - intros l1 x Hl. apply (prompt_ap_straggler HPV heap_len_HPV s l1 x Hc HL Hl).
+Qed.
+Print Assumptions C19_prompt_append_first.
 
 (* Safety of one maintenance run (any heap implementation, any state, factor > 0,
    every remaining draw < 1): either nothing changes, or - with m the priority
